@@ -136,6 +136,8 @@ def parse_operand(s):
         return ('move', pl)
     if s.startswith('const '):
         return ('const', s[6:])
+    if re.match(r'^[<\w]', s) and '::' in s:
+        return ('const', s)     # bare fn item used as a value, e.g. `core::str::<impl str>::trim`
     raise ValueError('operand? ' + s)
 
 BINOPS = {'Add','Sub','Mul','Div','Rem','BitXor','BitAnd','BitOr','Shl','Shr','Eq','Lt','Le','Ne','Ge','Gt','Cmp','Offset',
@@ -160,6 +162,7 @@ def parse_rvalue(s):
         t = s[1:]
         kind = 'shared'
         if t.startswith('mut '): t = t[4:]; kind = 'mut'
+        elif t.startswith('raw const (fake) '): t = t[17:]; kind = 'raw'
         elif t.startswith('raw const '): t = t[10:]; kind = 'raw'
         elif t.startswith('raw mut '): t = t[8:]; kind = 'rawmut'
         elif t.startswith('fake shallow '): t = t[13:]
